@@ -42,7 +42,8 @@ def project_shacl(text):
                 res = ["node", str(nodes[0])]
             elif ins:
                 items = list(rdflib.collection.Collection(g, ins[0]))
-                res = ["in", str(items[0]) if len(items) == 1 else "?%d" % len(items)]
+                one = items[0] if len(items) == 1 else None
+                res = ["in", ("_:" if isinstance(one, rdflib.BNode) else str(one)) if one is not None else "?%d" % len(items)]
             if nres > 1:
                 res = ["several", str(nres)]
 
